@@ -2,9 +2,8 @@ SPECIFICATION Spec
 CONSTANTS
   Tier = "quick"
   Variant = "ref"
-  MaxLevel = 2
+  MaxLevel = 0
   SimK = 0
-CONSTRAINT LevelBound
 INVARIANT OrdersAgree
 INVARIANT TraverseLaw
 INVARIANT UnwindLaw
@@ -16,4 +15,3 @@ INVARIANT WalkLaw
 INVARIANT PatchIsQuery
 INVARIANT RebindLaw
 INVARIANT ConstIdempotent
-PROPERTY RebindExact
